@@ -127,6 +127,8 @@ def long_job(types, emb, max_n=("10000", "1000000")):
 
 PROPS = {
     "C01": {
+        "level_text": "Moments.tla model-checked (TLC, exact rationals): Welford's update equals the textbook mean/variance for every sequence within bounds and is order-free; every TLC-generated sequence replayed on Mean/Variance under six exact embeddings, envelope comparison; long streams (<= 10^6) against the specification's definitions evaluated in i128; Apalache inductive invariant for the order-2 update over unbounded integers (thorough)",
+        "technique": 'TLC model checking of Moments.tla + spec->impl replay of every generated sequence; exact-evaluator long runs; Apalache inductive invariant',
         "title": "streaming mean/variance equal the exact statistics",
         "mc": [MC_SEQ],
         "replay": [gen_seq("Mean,Variance", E05)],
@@ -140,6 +142,8 @@ PROPS = {
                         "f64 accuracy is observed on lattice data under exact embeddings, not proved for all mantissas"],
     },
     "C02": {
+        "level_text": 'Moments.tla with Merge: AlgIsDef holds in every state reachable by add/merge/clone (Chan/Terriberry/Pebay merges = definition on concatenated ghost data), MergeLaws action property; every chunking x merge tree x direction replayed on ten types; long random chunkings incl. two-block boundary merges',
+        "technique": 'TLC model checking of merge histories + replay of every generated merge tree on the real types',
         "title": "merge is equivalent to having seen the concatenated data",
         "mc": [MC_MERGE],
         "replay": [gen_tree(ALLM, E05), gen_hist(ALLM, "E0,E3,E5")],
@@ -152,6 +156,8 @@ PROPS = {
         "assumptions": ["as C01"],
     },
     "C03": {
+        "level_text": 'as C01 for the third and fourth central sums (chain transcription with the OLD lower sums) and the skewness/kurtosis accessors incl. their zero shortcuts',
+        "technique": 'TLC model checking of Moments.tla (orders 3, 4) + replay on Skewness/Kurtosis',
         "title": "skewness and kurtosis equal the exact standardized moments",
         "mc": [MC_SEQ],
         "replay": [gen_seq("Skewness,Kurtosis", "E0,E1,E2,E3,E5")],
@@ -162,6 +168,8 @@ PROPS = {
         "assumptions": ["as C01"],
     },
     "C04": {
+        "level_text": "Pebay transcription of define_moments! model-checked for P = 4, 6, 8, 10 (ChainIsPebay, AlgIsDef); replay on Moments4 and harness instantiations of orders 4, 5, 6, 8, 10; orders beyond the generator's P from the i128 evaluator, cross-checked against the specification",
+        "technique": 'TLC model checking of the Pebay recurrences + replay on define_moments! types of five orders',
         "title": "define_moments! estimators of any order equal the exact central moments",
         "mc": [MC_SEQ, MC_P6, MC_P8, MC_P10],
         "replay": [gen_seq(GENERIC, E05), gen_p10(GENERIC, "E0,E1,E3,E5")],
@@ -173,6 +181,8 @@ PROPS = {
         "assumptions": ["as C01", "design-level (TLC) check of orders 6/8/10 limited to L <= 3/2/2 by 32-bit integers"],
     },
     "C10": {
+        "level_text": 'SampleDefs invariant of Moments.tla (bias-corrected statistics against textbook definitions on the ghost data); replay of every sequence on every type exposing the statistic',
+        "technique": 'TLC model checking of SampleDefs + replay',
         "title": "bias-corrected sample statistics follow their textbook definitions",
         "mc": [MC_SEQ],
         "replay": [gen_pair("Weighted", "seq", "E0:W0,E3:W1,E5:W2", types="WeightedMeanWithError", maxlen=("4", "5")), gen_seq("Variance,Skewness,Kurtosis," + GENERIC, "E0,E1,E2,E3,E5"), gen_tree("Variance,Kurtosis,Moments4,M6", "E0,E3")],
@@ -183,6 +193,8 @@ PROPS = {
         "assumptions": ["as C01"],
     },
     "C11": {
+        "level_text": 'MergeLaws action property in every family specification (empty source = identity, empty destination = copy, lengths add, source unchanged); at every merge of every generated history the real destination/source accessor vectors are compared bit for bit',
+        "technique": 'TLC action properties + bitwise implementation-vs-implementation comparison at every generated merge',
         "title": "the empty estimator is an exact identity of merge; lengths add exactly",
         "mc": [MC_HM, MC_MM, MC_W, MC_C, MC_MERGE],
         "replay": [gen_pair("Covariance", "tree", "E10:E10,E5:E10,E0:E0", maxlen=("3", "4")), gen_pair("Weighted", "tree", "E10:W1,E0:W0", maxlen=("3", "4")), gen_h("hist", 2, depth=("3", "4")), gen_h("hist", 3), gen_mm("hist", depth=("3", "4")), gen_pair("Weighted", "hist", "E0:W0,E5:W2,E10:W1", depth=("3", "4")), gen_pair("Covariance", "hist", "E0:E0,E3:E5,E10:E10,E5:E10", depth=("3", "4")), gen_hist(ALLM, "E0,E3,E5,E10"), gen_tree(ALLM, "E0")],
@@ -192,6 +204,8 @@ PROPS = {
         "assumptions": ["bitwise comparisons are implementation against implementation"],
     },
     "C16": {
+        "level_text": 'Sentinels invariant in every family specification; accessor tables at n = 0..4 and constant streams (up to 10^4, full-mantissa embedding) compared exactly',
+        "technique": 'TLC Sentinels invariants + exact replay',
         "title": "empty, one-observation and constant samples follow the documented contract",
         "mc": [MC_W1, MC_C1, MC_SEQ, MC_MERGE],
         "replay": [gen_q("small", "E0"), gen_mm("hist", depth=("3", "3")), gen_pair("Weighted", "seq", "E0:W0,E5:W2,E10:W0,E10:W1", maxlen=("4", "5")), gen_pair("Covariance", "seq", "E0:E0,E3:E5,E10:E10", maxlen=("4", "5")), gen_seq(ALLM, E05 + ",E10"), gen_hist(ALLM, "E0")],
@@ -202,6 +216,8 @@ PROPS = {
         "assumptions": [],
     },
     "C17": {
+        "level_text": 'VarNonNeg, MeanInRange, EffectiveLenRange, VarianceRange, CauchySchwarz invariants (exact arithmetic cannot go negative); every behaviour replayed under embeddings without conditioning bound (one-ulp spreads, denormals, 1e149) asserting sign/range on every observation; two-block boundary merges',
+        "technique": 'TLC range invariants + replay under extreme exact embeddings',
         "title": "variances are never negative and means stay within the data range",
         "mc": [MC_HM, MC_W, MC_C, MC_SEQ, MC_MERGE],
         "replay": [gen_h("hist", 2, depth=("3", "4")), gen_h("hist", 3), gen_pair("Weighted", "tree", "E0:W0,E6:W1,E7:W2,E8:W0,E9:W1", maxlen=("3", "4")), gen_pair("Covariance", "tree", "E6:E7,E8:E9,E9:E6", maxlen=("3", "4")), gen_seq(ALLM, E09), gen_tree(ALLM, "E0,E4,E6,E7,E8,E9"), gen_hist(ALLM, "E6,E7,E8,E9")],
@@ -213,6 +229,8 @@ PROPS = {
         "assumptions": [],
     },
     "C18": {
+        "level_text": 'Checkpoint is a stuttering action of every family specification; histories with checkpoints at every position replayed twice (with / without the JSON round trip) and compared bit for bit; a serde twin restored before every observation runs alongside long quantile streams and TLC requires it to stay identical',
+        "technique": 'stuttering Checkpoint action + two-run bitwise replay + serde twin in validated traces',
         "title": "a serde round trip at any point is invisible",
         "mc": [MC_MERGE],
         "replay": [gen_h("hist", 2, depth=("3", "4")), gen_h("hist", 1), gen_q("big", "E0,E5", maxlen=("7", "8")), gen_q("small", "E0"), gen_mm("hist", depth=("3", "4")), gen_pair("Weighted", "hist", "E0:W0,E5:W2", depth=("3", "4")), gen_pair("Covariance", "hist", "E0:E0,E3:E5", depth=("3", "4")), gen_hist(ALLM, "E0,E3,E5", depth=("5", "6"), slots=("{1}", "{1, 2}")), gen_hist(ALLM, "E0,E5")],
@@ -223,6 +241,8 @@ PROPS = {
         "assumptions": ["serde_json with float_roundtrip is lossless for finite f64"],
     },
     "C08": {
+        "level_text": 'Weighted.tla (West update, weighted merge, embedded variance): WeightedIsDef, ErrorIsDef, ZeroWeightInvisible, EffectiveLenRange model-checked; every (value, weight) sequence / chunking / merge tree replayed on both weighted types incl. very unequal weights',
+        "technique": 'TLC model checking of Weighted.tla + replay of every generated history',
         "title": "weighted mean and its error equal the exact weighted statistics",
         "mc": [MC_W, MC_W1, MC_WW],
         "replay": [gen_pair("Weighted", "seq", WE, maxlen=("4", "5")),
@@ -239,6 +259,8 @@ PROPS = {
         "assumptions": ["as C01"],
     },
     "C09": {
+        "level_text": 'Covariance.tla with a swapped twin: CovIsDef, CauchySchwarz, SwapSymmetric model-checked; every pair sequence / merge tree replayed incl. a real twin object fed swapped pairs; Apalache inductive invariant for the co-moment (thorough)',
+        "technique": 'TLC model checking of Covariance.tla + replay incl. swapped twin; Apalache inductive invariant',
         "title": "covariance reports exact means, variances, covariance and Pearson correlation",
         "mc": [MC_C, MC_C1],
         "replay": [gen_pair("Covariance", "seq", CE, maxlen=("4", "5")),
@@ -252,6 +274,8 @@ PROPS = {
         "assumptions": ["as C01"],
     },
     "C14": {
+        "level_text": 'MinMax.tla over tokens incl. +-inf, +-0, NaN: ExtremeIsDef (function of the non-NaN multiset), FromValueIsAdd; every sequence/chunking/merge tree/history replayed, all ingestion paths',
+        "technique": 'TLC model checking of MinMax.tla + exhaustive replay',
         "title": "Min and Max return the exact extreme of everything seen, in any order",
         "mc": [MC_MM],
         "replay": [gen_mm("seq", maxlen=("5", "6")), gen_mm("tree", maxlen=("3", "4")), gen_mm("hist", depth=("3", "4"))],
@@ -262,6 +286,8 @@ PROPS = {
         "assumptions": ["-0.0 and 0.0 are the same number (the property says 'as numbers')"],
     },
     "C05": {
+        "level_text": 'Quantile.tla (exact-rational P-square, one action per observation, boxes B1-B3 as operators) model-checked for the marker invariants; every stream of the bounded alphabet replayed step by step with positions/desired positions exact and heights within rounding (tie rule); long streams validated by TLC against the position skeleton (PosStep, proved equal to the full step by SkeletonIsStep)',
+        "technique": 'TLC model checking of Quantile.tla + step-wise replay + TLC trace validation of recorded long runs',
         "title": "Quantile follows the P-square algorithm exactly once five observations are in",
         "mc": [MC_Q],
         "replay": [gen_q("big", "E0,E3,E5", maxlen=("7", "9")),
@@ -277,6 +303,8 @@ PROPS = {
                         "marker state is read from the public serde form (fields q, n, m)"],
     },
     "C07": {
+        "level_text": 'Quantile.tla small-sample path: code-shaped index formula equals the definitional sample quantile for every multiset and p of the grid (SmallPathDefs); all permutations x 31 p values (+ one ulp either side of boundaries) replayed',
+        "technique": 'TLC model checking of the small-sample definitions + exhaustive replay of all 340 sequences x p grid',
         "title": "with fewer than five observations Quantile returns the exact sample quantile",
         "mc": [MC_QS],
         "replay": [gen_q("small", "E0,E3,E5")],
@@ -287,6 +315,8 @@ PROPS = {
         "assumptions": [],
     },
     "C15": {
+        "level_text": 'MarkersWellFormed / InRange / OneStepMoves of Quantile.tla; every enumerated stream checked after every observation; C15 flags logged at every step of long runs and required by Trace_Quantile; invalid p must panic',
+        "technique": 'TLC invariants of Quantile.tla + replay + TLC trace validation',
         "title": "quantile estimates stay inside the data range and bookkeeping is exact",
         "mc": [MC_Q, MC_QS],
         "replay": [gen_q("big", "E0,E3", maxlen=("7", "9")), gen_q("small", "E0")],
@@ -297,6 +327,8 @@ PROPS = {
         "assumptions": ["marker state is read from the public serde form"],
     },
     "C06": {
+        "level_text": 'Histogram.tla: the transcribed library binary search equals the half-open-bin definition for every valid edge vector and every lattice sample (FindIsDef), bins are counts of accepted samples; find/add tables and add histories replayed on define_histogram! (LEN 1-4) and histogram_const (nightly); random LEN 10/100 histories validated by TLC as traces',
+        "technique": 'TLC model checking of Histogram.tla + replay of find tables/histories + TLC trace validation (LEN 10, 100)',
         "title": "a histogram counts each sample in the unique half-open bin that contains it",
         "mc": [MC_HF1, MC_HF],
         "replay": [gen_h("find", 1), gen_h("find", 2), gen_h("find", 3), gen_h("find", 4, skip=(True, False))] + H_HIST,
@@ -309,6 +341,8 @@ PROPS = {
                         "that returns a different one of several equal elements is caught by the replay, not by the model"],
     },
     "C12": {
+        "level_text": 'FromRanges (first-offence semantics) equals the validity definition for every list offered (TLC ASSUME over all lists); ConstWidthOK; every list incl. surplus tails replayed; with_const_width across 16 scales and LEN up to 100',
+        "technique": 'TLC evaluation of FromRangesIsDef over all lists + replay of every list',
         "title": "histogram construction accepts exactly the valid edge lists",
         "mc": [MC_HF1, MC_HF],
         "replay": [gen_h("build", 1), gen_h("build", 2), gen_h("build", 3), gen_h("build", 4, skip=(True, False)),
@@ -321,6 +355,8 @@ PROPS = {
         "assumptions": [],
     },
     "C13": {
+        "level_text": 'Histogram.tla actions Merge/AddAssign/MulAssign/Reset/Clone with CombineLaws, PanicChangesNothing; BinsAreCounts; views as exact rationals / float classes; every history replayed (panic flags, operands unchanged, merge == += == reversed), traces validated by TLC',
+        "technique": 'TLC model checking of Histogram.tla + history replay + TLC trace validation',
         "title": "histogram merge, +=, *=, reset and views are exact bin-wise operations",
         "mc": [MC_HM],
         "replay": H_HIST,
@@ -333,6 +369,8 @@ PROPS = {
         "assumptions": [],
     },
     "C20": {
+        "level_text": 'Ingest.tla: the meaning of any mix of collect/extend/add is the add loop over the concatenation, concatenate! fields see everything once in order; every behaviour executed through the real impls of 12 types + 4 concatenate! structs (Probe) and compared bit for bit with the add loop',
+        "technique": 'TLC-generated ingestion behaviours + bitwise replay against the add loop',
         "title": "every ingestion path builds the same estimator; concatenate! adds nothing",
         "mc": [],
         "replay": [{"module": "Gen_Ingest", "cfg": "Gen_Ingest.cfg", "overrides": {"MaxLen": ("4", "5"), "MaxSteps": ("4", "5")}, "family": "ingest"},
@@ -347,6 +385,8 @@ PROPS = {
                         "concatenate! structs have no Extend: behaviours containing extend are skipped for them (counted)"],
     },
     "C19": {
+        "level_text": "Rayon.tla (split/leaf/join over ghost index ranges) model-checked incl. liveness; the crate's exported impl_from_par_iterator! instantiated on a logging Probe and run on real pools: every recorded schedule validated by TLC against RayonObj; fold/reduce-shaped histories replayed on ten types; direct collects against exact statistics",
+        "technique": 'TLC model checking of Rayon.tla + TLC trace validation of recorded rayon schedules + replay',
         "title": "parallel collection gives the sequential answer under every schedule",
         "mc": [{"module": "MC_Rayon", "cfg": "MC_Rayon.cfg", "overrides": {"N": ("4", "5"), "Ids": ("{1, 2, 3, 4, 5, 6, 7, 8}", "{1, 2, 3, 4, 5, 6, 7, 8, 9, 10}")}, "timeout": 7200},
                MC_MERGE],
